@@ -51,6 +51,88 @@ pub trait Actor: Any {
     fn class(&self) -> u8 { 0 }
 }
 
+pub const P_STARTING: u8 = 0;
+pub const P_RUNNING: u8 = 1;
+pub const P_PARKED: u8 = 2;
+pub const P_DEAD: u8 = 3;
+
+/// A simulated process: an OS thread running real code, scheduled by the baton.
+#[derive(Clone, Debug, Default)]
+pub struct ProcSlot {
+    pub name: String,
+    pub state: u8,
+    epfd: i32,
+    events: usize,
+    maxevents: i32,
+    deadline: u64,
+    delivered: Option<i32>,
+}
+
+enum Sched {
+    Return(i32),
+    Handoff(usize),
+}
+
+thread_local! {
+    pub static PROC_ID: Cell<usize> = const { Cell::new(0) };
+}
+static BATON: (std::sync::Mutex<usize>, std::sync::Condvar) = (std::sync::Mutex::new(0), std::sync::Condvar::new());
+
+fn baton_set(to: usize) {
+    let mut g = BATON.0.lock().unwrap();
+    *g = to;
+    BATON.1.notify_all();
+}
+fn baton_wait(me: usize) {
+    let mut g = BATON.0.lock().unwrap();
+    while *g != me { g = BATON.1.wait(g).unwrap(); }
+}
+
+/// `epoll_wait` of a simulated process: the scheduling point. Works on a raw pointer because the
+/// world is shared by all simulated processes; exactly one of them (the baton holder) touches it.
+pub fn epoll_wait_entry(wp: *mut World, epfd: i32, events: *mut libc::epoll_event, maxevents: i32, timeout_ms: i32) -> i32 {
+    let me = PROC_ID.with(|p| p.get());
+    unsafe { (&mut *wp).park(me, epfd, events, maxevents, timeout_ms) };
+    loop {
+        let out = unsafe { (&mut *wp).sched_step(me) };
+        match out {
+            Sched::Return(n) => return n,
+            Sched::Handoff(q) => {
+                baton_set(q);
+                baton_wait(me);
+                if let Some(n) = unsafe { (&mut *wp).take_delivery(me) } {
+                    return n;
+                }
+                // woken without a delivery (the previous holder exited): carry on scheduling
+            }
+        }
+    }
+}
+
+/// Run `f` as a new simulated process on its own thread under the world `wp`. The thread starts
+/// executing only when the scheduler hands it the baton.
+pub fn spawn_proc(wp: *mut World, name: &str, f: impl FnOnce() + Send + 'static) -> std::thread::JoinHandle<()> {
+    let id = unsafe { (&mut *wp).add_proc(name, true) };
+    let wp_addr = wp as usize;
+    std::thread::Builder::new().stack_size(16 << 20).name(name.to_string()).spawn(move || {
+        baton_wait(id);
+        CUR.with(|c| c.set(wp_addr as *mut World));
+        PROC_ID.with(|p| p.set(id));
+        f();
+        proc_exit(wp_addr as *mut World);
+        CUR.with(|c| c.set(std::ptr::null_mut()));
+    }).expect("spawn simulated process")
+}
+
+/// The calling simulated process is done: pass the baton on.
+pub fn proc_exit(wp: *mut World) {
+    let me = PROC_ID.with(|p| p.get());
+    if let Some(q) = unsafe { (&mut *wp).retire_proc(me) } {
+        unsafe { (&mut *wp).start_if_starting(q) };
+        baton_set(q);
+    }
+}
+
 #[derive(Clone, Debug, Default)]
 struct AState {
     runnable: bool,
@@ -217,7 +299,7 @@ pub struct World {
     /// SO_SNDBUF values applied (PRNG pick) to each new sozu-side stream socket
     pub sndbuf_choices: Option<Vec<i32>>,
     /// epoll token -> fd for sozu's simulated stream sockets
-    pub token_fd: BTreeMap<u64, i32>,
+    pub token_fd: BTreeMap<(i32, u64), i32>,
     /// fds on which sozu itself shut down its write side
     pub shut_wr: std::collections::BTreeSet<i32>,
     pub hup_masked: u64,
@@ -227,6 +309,10 @@ pub struct World {
     /// per simulated client IP: sockets being served
     pub accepted_peer: BTreeMap<i32, SocketAddr>,
     pub max_open_accepted: usize,
+    pub procs: Vec<ProcSlot>,
+    pending_burst: Option<u32>,
+    /// (simulated process, virtual time) of every accept of a simulated connection
+    pub accept_log: Vec<(usize, u64)>,
 }
 
 impl World {
@@ -267,12 +353,17 @@ impl World {
             max_served: 0,
             accepted_peer: BTreeMap::new(),
             max_open_accepted: 0,
+            procs: vec![ProcSlot { name: "p0".into(), state: P_RUNNING, ..Default::default() }],
+            pending_burst: None,
+            accept_log: Vec::new(),
         })
     }
 
     /// Install this world on the current thread (enters simulation mode).
     pub fn install(w: &mut Box<World>) {
         CUR.with(|c| c.set(&mut **w as *mut World));
+        PROC_ID.with(|p| p.set(0));
+        baton_set(0);
     }
     pub fn uninstall() {
         CUR.with(|c| c.set(std::ptr::null_mut()));
@@ -465,94 +556,143 @@ impl World {
         }
     }
 
-    /// The scheduling point. Called from the `epoll_wait` hook on the simulation thread.
-    pub fn on_epoll_wait(&mut self, epfd: i32, events: *mut libc::epoll_event, maxevents: i32, timeout_ms: i32) -> i32 {
+    /// Register the calling simulated process as parked in `epoll_wait`.
+    fn park(&mut self, me: usize, epfd: i32, events: *mut libc::epoll_event, maxevents: i32, timeout_ms: i32) {
         self.iterations += 1;
         self.stats.epoll_waits += 1;
         self.now += self.cfg.iter_cost_ns;
         if self.iterations > self.cfg.max_iterations { self.abort("max_iterations"); }
         if self.now > self.cfg.max_virtual_ns + 1000 * SEC { self.abort("max_virtual_time"); }
         let deadline = if timeout_ms < 0 { u64::MAX } else { self.now + timeout_ms as u64 * MS };
-        // sozu just ran: any actor may be able to progress again
+        while self.procs.len() <= me { self.procs.push(ProcSlot::default()); }
+        let p = &mut self.procs[me];
+        p.state = P_PARKED; p.epfd = epfd; p.events = events as usize; p.maxevents = maxevents; p.deadline = deadline; p.delivered = None;
+        // a process just ran: any actor may be able to progress again
         for a in self.astate.iter_mut() { if !a.done && !(a.hard_sleep && a.wake_at.is_some()) { a.runnable = true; } }
         self.fire_due();
-        let mut k = self.burst();
+        self.pending_burst = Some(self.burst());
+    }
+
+    /// Poll one parked process. Returns the number of events written into its buffer.
+    fn poll_proc(&mut self, i: usize, allow_truncate: bool) -> i32 {
+        let (epfd, events, maxevents) = { let p = &self.procs[i]; (p.epfd, p.events as *mut libc::epoll_event, p.maxevents) };
+        let mut maxev = maxevents;
+        let truncated = allow_truncate && self.cfg.ev_truncate_pm > 0 && self.sched.below(1000) < self.cfg.ev_truncate_pm as u64;
+        if truncated { maxev = 1 + self.sched.below(3) as i32; if maxev > maxevents { maxev = maxevents; } }
+        let n = unsafe { sys::sc!(libc::SYS_epoll_wait, epfd, events, maxev, 0) } as i32;
+        if n < 0 { return n; }
+        let n = if n > 0 { self.tcp_hup_semantics(epfd, events, n) } else { n };
+        if n > 0 {
+            if truncated && n == maxev { self.stats.epoll_truncated += 1; }
+            let evs = unsafe { std::slice::from_raw_parts_mut(events, n as usize) };
+            if allow_truncate && n > 1 && self.cfg.ev_permute_pm > 0 && self.sched.below(1000) < self.cfg.ev_permute_pm as u64 {
+                self.stats.epoll_permuted += 1;
+                for a in (1..evs.len()).rev() {
+                    let b = self.sched.below(a as u64 + 1) as usize;
+                    evs.swap(a, b);
+                }
+            }
+            self.stats.epoll_events += n as u64;
+            if self.log_on { let d: Vec<String> = evs.iter().map(|e| { let (b, t) = (e.events, e.u64); format!("tok{}:{:x}", t, b) }).collect(); let nm = self.procs[i].name.clone(); self.logf(|| format!("epoll_wait[{nm}] -> {}", d.join(" "))); }
+            self.trace.mix(0xE0 ^ ((i as u64) << 8));
+            for e in evs.iter() { let (ev, d) = (e.events, e.u64); self.trace.mix(((ev as u64) << 32) ^ d); }
+        }
+        n
+    }
+
+    /// One scheduling round by the baton holder `me`: runs actors, polls parked processes, advances
+    /// virtual time. Returns what to do next.
+    fn sched_step(&mut self, me: usize) -> Sched {
+        let mut k = self.pending_burst.take().unwrap_or(1);
         let mut spins = 0u64;
         loop {
             spins += 1;
             self.run_actors(k);
-            let mut maxev = maxevents;
-            let truncated = self.cfg.ev_truncate_pm > 0 && self.sched.below(1000) < self.cfg.ev_truncate_pm as u64;
-            if truncated { maxev = 1 + self.sched.below(3) as i32; if maxev > maxevents { maxev = maxevents; } }
-            let n = unsafe { sys::sc!(libc::SYS_epoll_wait, epfd, events, maxev, 0) } as i32;
-            if n < 0 {
-                sys::set_errno(-n);
-                return -1;
+            // a process that has been spawned but has not started yet is always ready to run
+            if let Some(q) = (0..self.procs.len()).find(|i| self.procs[*i].state == P_STARTING) {
+                self.procs[q].state = P_RUNNING;
+                self.trace.mix(0x5A ^ ((q as u64) << 8));
+                return Sched::Handoff(q);
             }
-            let n = if n > 0 { self.tcp_hup_semantics(events, n) } else { n };
-            if n > 0 {
-                if truncated && n == maxev { self.stats.epoll_truncated += 1; }
-                let evs = unsafe { std::slice::from_raw_parts_mut(events, n as usize) };
-                if n > 1 && self.cfg.ev_permute_pm > 0 && self.sched.below(1000) < self.cfg.ev_permute_pm as u64 {
-                    self.stats.epoll_permuted += 1;
-                    for i in (1..evs.len()).rev() {
-                        let j = self.sched.below(i as u64 + 1) as usize;
-                        evs.swap(i, j);
-                    }
+            // poll parked processes in PRNG order
+            let mut order: Vec<usize> = (0..self.procs.len()).filter(|i| self.procs[*i].state == P_PARKED).collect();
+            if order.len() > 1 { self.sched.shuffle(&mut order); }
+            if order.is_empty() { return Sched::Return(0); }
+            for i in order.iter().copied() {
+                let n = self.poll_proc(i, true);
+                if n < 0 {
+                    if i == me { sys::set_errno(-n); self.procs[me].state = P_RUNNING; return Sched::Return(-1); }
+                    continue;
                 }
-                self.stats.epoll_events += n as u64;
-                if self.log_on { let d: Vec<String> = evs.iter().map(|e| { let (b, t) = (e.events, e.u64); format!("tok{}:{:x}", t, b) }).collect(); self.logf(|| format!("epoll_wait -> {}", d.join(" "))); }
-                self.trace.mix(0xE0);
-                for e in evs.iter() { let (ev, d) = (e.events, e.u64); self.trace.mix(((ev as u64) << 32) ^ d); }
-                return n;
+                if n > 0 {
+                    self.procs[i].state = P_RUNNING;
+                    if i == me { return Sched::Return(n); }
+                    self.procs[i].delivered = Some(n);
+                    return Sched::Handoff(i);
+                }
             }
-            // nothing ready for sozu
+            // nothing ready for any process
             if self.astate.iter().any(|a| a.runnable && !a.done) {
                 k = 1 + self.burst();
-                if spins > 5_000_000 { self.abort("actor_livelock"); return 0; }
+                if spins > 5_000_000 { self.abort("actor_livelock"); self.procs[me].state = P_RUNNING; return Sched::Return(0); }
                 continue;
             }
-            // quiescent: advance virtual time
-            let next = self.next_wake().unwrap_or(u64::MAX).min(deadline);
+            // quiescent: advance virtual time to the next actor wake-up or process deadline
+            let min_deadline = order.iter().map(|i| self.procs[*i].deadline).min().unwrap_or(u64::MAX);
+            let next = self.next_wake().unwrap_or(u64::MAX).min(min_deadline);
             if next == u64::MAX {
-                // sozu sleeps forever and nobody will ever act: end of the world
+                // everybody sleeps forever and nobody will ever act: end of the world
                 self.abort("deadlock");
-                return 0;
+                self.procs[me].state = P_RUNNING;
+                return Sched::Return(0);
             }
             if next > self.now {
                 self.stats.clock_jumps += 1;
                 self.now = next;
             }
             self.fire_due();
-            if self.now >= deadline && !self.astate.iter().any(|a| a.runnable && !a.done) {
-                // one last look, then report a timeout
-                let n = unsafe { sys::sc!(libc::SYS_epoll_wait, epfd, events, maxevents, 0) } as i32;
-                let n = if n > 0 { self.tcp_hup_semantics(events, n) } else { n };
-                if n > 0 {
-                    self.stats.epoll_events += n as u64;
-                    self.trace.mix(0xE1);
-                    return n;
+            if !self.astate.iter().any(|a| a.runnable && !a.done) {
+                // deliver a timeout to one process whose deadline has passed (after one last look)
+                if let Some(i) = order.iter().copied().find(|i| self.procs[*i].deadline <= self.now) {
+                    let n = self.poll_proc(i, false);
+                    let n = if n > 0 { n } else { self.stats.timeouts_returned += 1; self.trace.mix(0xE2 ^ ((i as u64) << 8)); 0 };
+                    self.procs[i].state = P_RUNNING;
+                    if i == me { return Sched::Return(n); }
+                    self.procs[i].delivered = Some(n);
+                    return Sched::Handoff(i);
                 }
-                self.stats.timeouts_returned += 1;
-                self.trace.mix(0xE2);
-                return 0;
             }
             k = 1;
         }
     }
 
+    /// Declare a new simulated process (a thread that will run real code under this world).
+    pub fn add_proc(&mut self, name: &str, starting: bool) -> usize {
+        self.procs.push(ProcSlot { name: name.into(), state: if starting { P_STARTING } else { P_RUNNING }, ..Default::default() });
+        self.procs.len() - 1
+    }
+
+    /// The calling process has left its event loop for good. Returns the process to hand the baton to, if any.
+    fn retire_proc(&mut self, me: usize) -> Option<usize> {
+        if me < self.procs.len() { self.procs[me].state = P_DEAD; }
+        (0..self.procs.len()).find(|i| self.procs[*i].state == P_PARKED || self.procs[*i].state == P_STARTING)
+    }
+    fn take_delivery(&mut self, me: usize) -> Option<i32> { self.procs[me].delivered.take() }
+    fn start_if_starting(&mut self, q: usize) { if self.procs[q].state == P_STARTING { self.procs[q].state = P_RUNNING; } }
+    pub fn live_procs(&self) -> usize { self.procs.iter().filter(|p| p.state != P_DEAD).count() }
+
     /// AF_UNIX reports EPOLLHUP as soon as the peer closes; TCP reports it only once both
     /// directions are shut down or the connection was reset. Translate: on sozu's simulated
     /// stream sockets a HUP without ERR is dropped (IN|RDHUP remain) unless sozu itself already
     /// shut down its write side. Events left empty are removed from the array.
-    fn tcp_hup_semantics(&mut self, events: *mut libc::epoll_event, n: i32) -> i32 {
+    fn tcp_hup_semantics(&mut self, epfd: i32, events: *mut libc::epoll_event, n: i32) -> i32 {
         let evs = unsafe { std::slice::from_raw_parts_mut(events, n as usize) };
         let mut out = 0usize;
         for i in 0..evs.len() {
             let mut e = evs[i];
             let (bits, data) = (e.events, e.u64);
             if bits & libc::EPOLLHUP as u32 != 0 && bits & libc::EPOLLERR as u32 == 0 {
-                if let Some(fd) = self.token_fd.get(&data).copied() {
+                if let Some(fd) = self.token_fd.get(&(epfd, data)).copied() {
                     if matches!(self.sozu_fds.get(&fd), Some('a') | Some('c')) && !self.shut_wr.contains(&fd) && !self.pending.contains_key(&fd) {
                         e.events = bits & !(libc::EPOLLHUP as u32);
                         self.hup_masked += 1;
@@ -627,7 +767,7 @@ impl World {
     /// epoll_ctl from sozu. Returns Some(result) if handled here.
     pub fn on_epoll_ctl(&mut self, epfd: i32, op: i32, fd: i32, ev: *mut libc::epoll_event) -> Option<i32> {
         if op == libc::EPOLL_CTL_DEL {
-            if let Some((_, _, data)) = self.epoll_regs.get(&fd) { let d = *data; if self.token_fd.get(&d) == Some(&fd) { self.token_fd.remove(&d); } }
+            if let Some((ep, _, data)) = self.epoll_regs.get(&fd) { let d = (*ep, *data); if self.token_fd.get(&d) == Some(&fd) { self.token_fd.remove(&d); } }
             self.epoll_regs.remove(&fd);
             if let Some(p) = self.pending.get_mut(&fd) { p.reg = None; }
             return None;
@@ -636,7 +776,7 @@ impl World {
         let (events, data) = unsafe { ((*ev).events, (*ev).u64) };
         if self.sozu_fds.contains_key(&fd) {
             self.epoll_regs.insert(fd, (epfd, events, data));
-            self.token_fd.insert(data, fd);
+            self.token_fd.insert((epfd, data), fd);
         }
         if let Some(p) = self.pending.get_mut(&fd) {
             p.reg = Some((epfd, events, data));
@@ -660,7 +800,7 @@ impl World {
         self.shut_wr.remove(&fd);
         self.served.remove(&fd);
         self.accepted_peer.remove(&fd);
-        if let Some((_, _, data)) = self.epoll_regs.get(&fd) { let d = *data; if self.token_fd.get(&d) == Some(&fd) { self.token_fd.remove(&d); } }
+        if let Some((ep, _, data)) = self.epoll_regs.get(&fd) { let d = (*ep, *data); if self.token_fd.get(&d) == Some(&fd) { self.token_fd.remove(&d); } }
         self.epoll_regs.remove(&fd);
         if self.sozu_fds.contains_key(&fd) { self.logf(|| format!("sozu close fd={fd}")); }
         if self.sozu_fds.remove(&fd).is_some() {
